@@ -104,10 +104,10 @@ def abstract_fields(fields, npos=None, version=None):
         f = pos[2:]
     elif rt == "O":
         name = pos[0]
-        refs = [_orid(x) for x in pos[1].split(" ")]
+        refs = [_orid(x) for x in pos[1].split(" ") if x != ""]
     elif rt == "U":
         name = pos[0]
-        refs = [[x, ""] for x in pos[1].split(" ")]
+        refs = [[x, ""] for x in pos[1].split(" ") if x != ""]
     elif rt == "H":
         pass
     else:
